@@ -5,6 +5,10 @@ Driver for C08.
   case := op op …    I | E | L<ps> | J<f>:<ps> | X<f> | R<h>     <ps> := - | p,p,…
   obs  := step;step;…   step := res/present/logical/explicit/valid/stats
           res := h<k> | u | ok:<cascade> | err   (a trailing `!flag` from the harness makes it unparsable)
+          `C` = working_memory_mut().clear_modification_tracking(): not an operation of the model — it inserts and
+          retracts nothing. Its step has result `c` and must repeat the sets of the step before it (clause
+          `maintenance`); the driver checks exactly that, removes the op and its step, and hands the rest to the
+          model / Spec.runOk unchanged (so every theorem is about the same `Op` type as before).
   drv_c08 model   : case        ↦ obs predicted by the model
   drv_c08 oracle  : case | obs  ↦ `ok <tags>` / `fail <clause>@<step>` (Spec.runOk on the observations)
 -/
@@ -25,7 +29,38 @@ def parseOp (t : String) : Option Op :=
   else if t.startsWith "R" then (t.drop 1).toString.toNat?.map .retract
   else none
 
-def parseCase (line : String) : Option (List Op) := (tokens line).mapM parseOp
+/-- a token of the case line: an operation of the model, or the maintenance call `C` (`none`) -/
+def parseTok (t : String) : Option (Option Op) :=
+  if t = "C" then some none else (parseOp t).map some
+
+def parseToks (line : String) : Option (List (Option Op)) := (tokens line).mapM parseTok
+
+def parseCase (line : String) : Option (List Op) := (parseToks line).map fun ts => ts.filterMap id
+
+/-- what every step shows before anything happened: no fact, no justification -/
+def emptySets : String := "-/-/-/-/0,0,0,0"
+
+/-- the sets of a step (everything after the result) -/
+def setsOf (step : String) : String :=
+  match step.splitOn "/" with
+  | _ :: rest => "/".intercalate rest
+  | [] => ""
+
+/-- model mode: put a step `c/<sets of the step before>` back for every `C` -/
+def weave : List (Option Op) → List String → String → List String
+  | [], _, _ => []
+  | none :: ts, steps, prev => s!"c/{prev}" :: weave ts steps prev
+  | some _ :: ts, st :: steps, _ => st :: weave ts steps (setsOf st)
+  | some _ :: _, [], _ => []
+
+/-- oracle mode: check the `C` steps (result `c`, sets unchanged) and remove them;
+`.error i` = the maintenance clause fails at (original) step `i` -/
+def unweave : List (Option Op) → List String → String → Nat → Except Nat (List String)
+  | [], rest, _, _ => .ok rest
+  | none :: ts, st :: steps, prev, i =>
+    if st == s!"c/{prev}" then unweave ts steps prev (i + 1) else .error i
+  | some _ :: ts, st :: steps, _, i => (unweave ts steps (setsOf st) (i + 1)).map (st :: ·)
+  | _ :: _, [], _, _ => .ok []
 
 def showRes : Res → String
   | .handle h => s!"h{h}"
@@ -62,8 +97,14 @@ def parseTrace (s : String) : Option (List Obs) :=
   if s = "-" then some [] else (s.splitOn ";").mapM parseObs
 
 def modelLine (line : String) : String :=
-  match parseCase line with
-  | some ops => showTrace (trace (universeOf ops) init ops)
+  match parseToks line with
+  | some ts =>
+    let ops := ts.filterMap id
+    if ts.all Option.isSome then showTrace (trace (universeOf ops) init ops)
+    else
+      let steps := (trace (universeOf ops) init ops).map showObs
+      let out := weave ts steps emptySets
+      if out.isEmpty then "-" else ";".intercalate out
   | none => "bad-case"
 
 /-- which clause fails at step `i` (for the signature) -/
@@ -149,13 +190,26 @@ def oracleLine (line : String) : String :=
   match line.splitOn " | " with
   | [c, o] =>
     let (o, flags) := stripFlags o.trimAscii.toString
+    -- the maintenance steps first: checked here and removed
+    let hasC := (parseToks c).any fun ts => !ts.all Option.isSome
+    let chk : Except Nat String :=
+      match parseToks c with
+      | some ts =>
+        if hasC then
+          (unweave ts (if o = "-" then [] else o.splitOn ";") emptySets 0).map fun l =>
+            if l.isEmpty then "-" else ";".intercalate l
+        else .ok o
+      | none => .ok o
+    match chk with
+    | .error i => s!"fail maintenance@{i}"
+    | .ok o =>
     match parseCase c, parseTrace o with
     | some ops, some os =>
       let k := universeOf ops
       match firstBad k 0 {} ops os with
       | none =>
         match flags with
-        | [] => joinSp ("ok" :: tagsOf ops os)
+        | [] => joinSp ("ok" :: tagsOf ops os ++ (if hasC then ["maintenance_call"] else []))
         | f :: _ => s!"fail inconsistent-{f}"
       | some i =>
         match ghostAt i {} ops os with
